@@ -220,7 +220,7 @@ func replay(in input) (out map[string]any) {
 	switch sc.Fam {
 	case "retry":
 		return replayRetry(in)
-	case "hooks":
+	case "hooks", "pjoin":
 		return replayHooks(in)
 	}
 	p := &probe{script: sc.Script, g: rt.NewGates()}
@@ -398,7 +398,13 @@ func replayHooks(in input) map[string]any {
 			h.script[nm] = sc.Script[i]
 		}
 	}
-	call, err := buildHooks(sc, h)
+	var call func(context.Context)
+	var err error
+	if sc.Fam == "pjoin" {
+		call = buildPJoin(sc, h)
+	} else {
+		call, err = buildHooks(sc, h)
+	}
 	if err != nil {
 		return map[string]any{"n": in.N, "ok": false, "key": "harness/unknown-kind", "what": err.Error(), "infra": true}
 	}
@@ -413,7 +419,7 @@ func replayHooks(in input) map[string]any {
 		if !op.Done() {
 			return fail(in, k, "caller-stuck", "call did not return", nil)
 		}
-		got := h.get()
+		got := h.take()
 		ok := false
 		for _, a := range st.Exp.Allowed {
 			ok = ok || strings.Join(a, ",") == strings.Join(got, ",")
